@@ -189,40 +189,60 @@ def decode_into(I, t, ptr, value):
         ctx.store_(ptr, value)
         return None
     dec = ctx.alloc(StructV([]), 'xml.Decoder')
-    ctx.ghost.setdefault('xmldec', {})[dec.cell] = value
+    ctx.ghost.setdefault('xmldec', {})[dec.cell] = (t, value)
     start = I.prog.zero('encoding/xml.StartElement')
     return I.call_function(fn, [ptr, dec, start], None)
 
 
 @stub('(*encoding/xml.Decoder).DecodeElement')
 def xml_decode_element(I, args, ins):
+    """Fill the struct the type's UnmarshalXML hands to the decoder: the embedded *Alias receives the
+    value; explicit fields of the auxiliary struct shadow the alias fields of the same name."""
     ctx = I.ctx
     dec = ctx.force(args[0])
     v = ctx.force(args[1])
-    value = ctx.ghost.get('xmldec', {}).get(dec.cell if dec is not None else None)
-    if value is None:
+    ent = ctx.ghost.get('xmldec', {}).get(dec.cell if dec is not None else None)
+    if ent is None:
         raise Inconclusive('DecodeElement on an unknown decoder')
+    vt, value = ent
     if not isinstance(v, Iface):
         raise Inconclusive('DecodeElement target')
+    t = v.dyn
     p = ctx.force(v.val)
-    # v is *struct{...; *Alias} or **struct{...}
-    tgt = ctx.load(p)
-    while isinstance(ctx.force(tgt), Ptr):
-        p = ctx.force(tgt)
-        tgt = ctx.load(p)
-    if isinstance(tgt, StructV):
-        # find the embedded alias pointer: a pointer field whose pointee has the shape of `value`
-        for f in tgt:
-            f = ctx.force(f) if isinstance(f, (Lazy, Ptr)) else f
-            if isinstance(f, Ptr):
-                cur = ctx.load(f)
-                if isinstance(cur, StructV) and isinstance(value, StructV) and len(cur) == len(value):
-                    ctx.store_(f, value)
-                    return None
-        if isinstance(value, StructV) and len(tgt) == len(value):
+    while I.prog.kind(t) == 'ptr':
+        et = I.prog.elem(t)
+        if I.prog.kind(et) == 'ptr':
+            p = ctx.force(ctx.load(p))
+            t = et
+            continue
+        t = et
+        break
+    if p is None:
+        raise Inconclusive('DecodeElement into nil')
+    if I.prog.kind(t) != 'struct':
+        raise Inconclusive('DecodeElement target is not a struct')
+    vfields = [f['n'] for f in I.prog.fields(vt)]
+    aux = ctx.load(p)
+    done = False
+    for i, f in enumerate(I.prog.fields(t)):
+        cur = ctx.force(aux[i])
+        if f.get('emb') and isinstance(cur, Ptr):
+            ctx.store_(cur, value)
+            done = True
+        elif f.get('emb') and cur is None:
+            continue
+        elif f['n'] in vfields:
+            val = value[vfields.index(f['n'])]
+            if I.prog.kind(f['t']) == 'ptr' and isinstance(cur, Ptr):
+                ctx.store_(cur, val)
+            else:
+                ctx.store_(Ptr(p.cell, p.path + (i,)), val)
+    if not done:
+        if len(aux) == len(value):
             ctx.store_(p, value)
-            return None
-    raise Inconclusive('DecodeElement: no alias target found')
+        else:
+            raise Inconclusive('DecodeElement: no alias target found')
+    return None
 
 
 def _no_hook(I, info, t, ptr):
